@@ -85,6 +85,20 @@ class Model:
                         d['imports'][a.asname or a.name.split('.')[0]] = ('ext', a.name)
                 elif isinstance(n, ast.Assign) and len(n.targets) == 1 and isinstance(n.targets[0], ast.Name):
                     d['consts'][n.targets[0].id] = n.value
+                elif isinstance(n, ast.Assign) and len(n.targets) == 1 and isinstance(n.targets[0], (ast.Tuple, ast.List)) and all(isinstance(t, ast.Name) for t in n.targets[0].elts):
+                    # A, B, C = range(3)   /   A, B = "x", "y" : each name is bound to its element
+                    names_ = [t.id for t in n.targets[0].elts]
+                    vals_ = None
+                    if isinstance(n.value, (ast.Tuple, ast.List)) and len(n.value.elts) == len(names_):
+                        vals_ = list(n.value.elts)
+                    elif isinstance(n.value, ast.Call) and isinstance(n.value.func, ast.Name) and n.value.func.id == 'range' and not n.value.keywords \
+                            and 1 <= len(n.value.args) <= 2 and all(isinstance(a, ast.Constant) and isinstance(a.value, int) for a in n.value.args):
+                        lo_, hi_ = (0, n.value.args[0].value) if len(n.value.args) == 1 else (n.value.args[0].value, n.value.args[1].value)
+                        if hi_ - lo_ == len(names_):
+                            vals_ = [ast.copy_location(ast.Constant(value=v_), n) for v_ in range(lo_, hi_)]
+                    if vals_ is not None:
+                        for nm_, v_ in zip(names_, vals_):
+                            d['consts'][nm_] = v_
                 elif isinstance(n, ast.Try):
                     scan(n.body)
                     for h in n.handlers:
@@ -490,7 +504,7 @@ class Sym:
                 for m_, c_ in (s.model.mro(dm, dc) if dc is not None else []):
                     hit_ = [st for st in c_.body if isinstance(st, ast.Assign) and any(isinstance(t, ast.Name) and t.id == n.attr for t in st.targets)]
                     if hit_:
-                        if len(hit_) == 1 and _literal_table(hit_[0].value) and not s.model.attr_stored(n.attr):
+                        if len(hit_) == 1 and (_literal_table(hit_[0].value) or _type_table(hit_[0].value)) and not s.model.attr_stored(n.attr):
                             return s.term(hit_[0].value, {}, m_, None)
                         break
             return ('attr', base, n.attr)
@@ -596,6 +610,10 @@ class Sym:
                     return (f[1], lit[1])                           # tuple(<f(x) for x in literal>) is the literal tuple
             if f[0] == 'b' and f[1] in ('tuple', 'list') and len(args) == 1 and not kws and args[0][0] in ('tuple', 'list') and not any(x[0] == 'star' for x in args[0][1]):
                 return (f[1], args[0][1])
+            if f[0] == 'attr' and f[2] == '_make' and len(args) == 1 and not kws and f[1][0] == 'g' and args[0][0] in ('tuple', 'list') and not any(x[0] == 'star' for x in args[0][1]):
+                flds = s.model.tuple_fields(f[1])
+                if flds and len(flds) == len(args[0][1]):
+                    return ('call', f[1], tuple(args[0][1]), ())                     # NT._make((a, b)) is NT(a, b)
             if f[0] == 'attr' and f[2] == '_asdict' and not args and not kws and f[1][0] == 'call' and f[1][1][0] == 'g':
                 flds = s.model.tuple_fields(f[1][1])
                 if flds and not any(a_[0] == 'star' for a_ in f[1][2]) and not any(k_ == '**' for k_, _ in f[1][3]):
@@ -844,7 +862,18 @@ class Sym:
             return [leaf], []
         if ct in (('c', False), ('c', None)) or known is False:
             return [], [leaf]
-        # constant folding of comparisons: both sides constants, or the same pure term on both sides
+        # constant folding of comparisons: both sides constants (literals or module-level names bound once to a literal), or the same
+        # pure term on both sides
+        if ct[0] == 'cmp' and (ct[2][0] == 'g' or ct[3][0] == 'g'):
+            def lit_(t_):
+                if t_[0] == 'g':
+                    lk_ = s.model.lookup(t_)
+                    if lk_ and lk_[0] == 'const' and isinstance(lk_[1], ast.Constant) and not s.model.reassigned(t_[1], t_[2]):
+                        return ('c', lk_[1].value)
+                return t_
+            ct2_ = ('cmp', ct[1], lit_(ct[2]), lit_(ct[3]))
+            if ct2_[2][0] == 'c' and ct2_[3][0] == 'c':
+                ct = ct2_                      # (only when the whole comparison becomes constant: a name compared with a variable stays a name)
         if ct[0] == 'cmp' and ct[2][0] == 'c' and ct[3][0] == 'c':
             a_, b_ = ct[2][1], ct[3][1]
             try:
@@ -856,6 +885,9 @@ class Sym:
                 return [leaf], []
             if r_ is False:
                 return [], [leaf]
+        if ct[0] == 'cmp' and ct[1] in ('is', 'is not', '==', '!=') and ((ct[2][0] in ('tuple', 'list', 'dict', 'set') and ct[3] == ('c', None)) or (ct[3][0] in ('tuple', 'list', 'dict', 'set') and ct[2] == ('c', None))):
+            # a tuple / list / dict display is never None (a helper given a literal tuple where it tests `x is None`)
+            return ([], [leaf]) if ct[1] in ('is', '==') else ([leaf], [])
         if ct[0] == 'cmp' and ct[2] == ct[3] and _pure(ct[2]):
             if ct[1] in ('==', '>=', '<=', 'is'):
                 return [leaf], []
@@ -1364,6 +1396,18 @@ class Sym:
             leaf.outcome = 'break' if isinstance(st, ast.Break) else 'continue'
             leaf.node = st
             return [leaf]
+        if isinstance(st, ast.For) and not st.orelse and isinstance(st.iter, ast.Call) and not st.iter.keywords and len(st.iter.args) >= 2 \
+                and term_name(s.T(st.iter.func, leaf)).split('.')[-1] == 'chain' and not any(isinstance(a, ast.Starred) for a in st.iter.args) \
+                and not any(isinstance(x, ast.Break) for b in st.body for x in ast.walk(b)):
+            # for x in itertools.chain(A, B, ...): BODY   is   for x in A: BODY; for x in B: BODY; ...   (BODY has no break)
+            import copy as _copy
+            seq = []
+            for a in st.iter.args:
+                f2 = ast.For(target=_copy.deepcopy(st.target), iter=a, body=st.body, orelse=[])
+                ast.copy_location(f2, st)
+                ast.fix_missing_locations(f2)
+                seq.append(f2)
+            return s.block(seq, [leaf])
         if isinstance(st, ast.For):
             return s.for_loop(st, leaf)
         if isinstance(st, ast.While):
@@ -1578,6 +1622,21 @@ class Sym:
             for x in (guard, guard.test, guard.body[0], new_loop, new_loop.test):
                 ast.copy_location(x, st)
             return s.while_loop(new_loop, leaf)
+        if isinstance(st.test, ast.Call) and not st.orelse and s._inline_target(st.test, leaf) is not None and getattr(s, '_wh_depth', 0) < 2:
+            # `while self._helper(): BODY` with a helper the rules do not know: `while True: t = self._helper(); if not t: break; BODY`
+            # (the helper's paths -- what it does with one message, one block -- become paths of the loop body)
+            tmp = '_while_test_%d' % st.lineno
+            asg = ast.Assign(targets=[ast.Name(id=tmp, ctx=ast.Store())], value=st.test)
+            guard = ast.If(test=ast.UnaryOp(op=ast.Not(), operand=ast.Name(id=tmp, ctx=ast.Load())), body=[ast.Break()], orelse=[])
+            new_loop = ast.While(test=ast.Constant(value=True), body=[asg, guard] + [b for b in st.body if not isinstance(b, ast.Pass)], orelse=[])
+            for x in (asg, guard, guard.test, guard.body[0], new_loop, new_loop.test):
+                ast.copy_location(x, st)
+            ast.fix_missing_locations(new_loop)
+            s._wh_depth = getattr(s, '_wh_depth', 0) + 1
+            try:
+                return s.while_loop(new_loop, leaf)
+            finally:
+                s._wh_depth -= 1
         const_true = isinstance(st.test, ast.Constant) and bool(st.test.value)
         # `flag = True; while flag: ... flag = False ...`: a loop that runs until the body clears its flag is `while True` whose
         # iterations that end with the flag cleared leave the loop (the test is only evaluated between iterations)
@@ -1751,6 +1810,14 @@ def _all_const(t):
     if t[0] in ('tuple', 'list'):
         return all(_all_const(x) for x in t[1])
     return False
+
+
+def _type_table(v):
+    """a tuple of builtin type names: (int, float) -- what isinstance is given"""
+    names = ('int', 'float', 'str', 'bytes', 'bool', 'slice', 'complex')
+    if isinstance(v, ast.Name):
+        return v.id in names
+    return isinstance(v, ast.Tuple) and bool(v.elts) and all(isinstance(x, ast.Name) and x.id in names for x in v.elts)
 
 
 def _literal_table(v):
